@@ -188,6 +188,9 @@ func faults(t *testing.T, r *run.R) {
 		payload int64
 	}
 	variants := []variant{{true, 300}, {true, 1500}, {false, 300}}
+	if !r.Quick() {
+		variants = append(variants, variant{true, 0}, variant{true, 1000}, variant{true, 999}, variant{false, 0}, variant{false, 1500}, variant{true, 5000})
+	}
 	for _, v := range variants {
 		_, tr, _ := runFaultCase(t, faultCase{Kind: "step", At: -1, Limited: v.limited, Payload: v.payload}, true)
 		r.Count("fault_dryrun_steps", len(tr))
@@ -217,7 +220,11 @@ func faults(t *testing.T, r *run.R) {
 	scripts := append([]string{"truncSilent", "hugevarint"}, failingStopScripts...)
 	for _, sc := range scripts {
 		for _, req := range []string{"normal", "closeWriteAfterSend", "resetAfterSend"} {
-			for _, d := range []time.Duration{0, 5 * time.Second} {
+			delays := []time.Duration{0, 5 * time.Second}
+			if !r.Quick() {
+				delays = append(delays, time.Second, 59*time.Second, 61*time.Second)
+			}
+			for _, d := range delays {
 				for _, lim := range []bool{true, false} {
 					if !lim && (d != 0 || req != "normal") && r.Quick() {
 						continue
@@ -229,10 +236,13 @@ func faults(t *testing.T, r *run.R) {
 	}
 	// a well-behaved destination with a vanishing / half-closing source (delayed answer: the OK cannot be delivered)
 	for _, req := range []string{"closeWriteAfterSend", "resetAfterSend"} {
-		for _, d := range []time.Duration{0, 5 * time.Second, 59 * time.Second} {
+		for _, d := range []time.Duration{0, 5 * time.Second, 59 * time.Second, 61 * time.Second} {
 			cases = append(cases, faultCase{Kind: "stop", Script: "ok", Req: req, Delay: d, Limited: true})
 		}
 	}
+	// a destination that accepts, but only after the relay's handshake timeout
+	cases = append(cases, faultCase{Kind: "stop", Script: "ok", Req: "normal", Delay: 61 * time.Second, Limited: true},
+		faultCase{Kind: "stop", Script: "ok", Req: "normal", Delay: 59 * time.Second, Limited: true})
 	// 3. source misbehaviour
 	for _, req := range []string{"nilpeer", "badpeer", "wrongtype", "unknowntype", "garbage", "oversize", "truncEOF", "truncSilent", "silence", "eof", "withaddrs"} {
 		for _, lim := range []bool{true, false} {
